@@ -23,8 +23,12 @@ type Result = std::result::Result<ArrayImpl, ConvertError>;
 impl ArrayImpl {
     pub fn neg(&self) -> Result {
         Ok(match self {
-            A::Int32(a) => A::new_int32(unary_op(a.as_ref(), |v| -v)),
-            A::Int64(a) => A::new_int64(unary_op(a.as_ref(), |v| -v)),
+            A::Int32(a) => A::new_int32(try_unary_op(a.as_ref(), |v| {
+                v.checked_neg().ok_or(ConvertError::OutOfRange("neg"))
+            })?),
+            A::Int64(a) => A::new_int64(try_unary_op(a.as_ref(), |v| {
+                v.checked_neg().ok_or(ConvertError::OutOfRange("neg"))
+            })?),
             A::Float64(a) => A::new_float64(unary_op(a.as_ref(), |v| -v)),
             A::Decimal(a) => A::new_decimal(unary_op(a.as_ref(), |v| -v)),
             _ => return Err(ConvertError::NoUnaryOp("-".into(), self.type_string())),
@@ -49,23 +53,23 @@ impl ArrayImpl {
 
 /// A macro to implement arithmetic operations.
 macro_rules! arith {
-    ($name:ident, $op:tt) => {
+    ($name:ident, $op:tt, $checked:ident) => {
         pub fn $name(
             &self,
             other: &Self,
         ) -> Result {
         Ok(match (self, other) {
-            (A::Int16(a), A::Int16(b)) => A::new_int16(binary_op(a.as_ref(), b.as_ref(), |a, b| a $op b)),
+            (A::Int16(a), A::Int16(b)) => A::new_int16(checked_binary_op(a.as_ref(), b.as_ref(), stringify!($name), |a, b| (*a).$checked(*b))?),
 
-            (A::Int16(a), A::Int32(b)) => A::new_int32(binary_op(a.as_ref(), b.as_ref(), |a, b| (*a as i32) $op *b)),
-            (A::Int32(a), A::Int16(b)) => A::new_int32(binary_op(a.as_ref(), b.as_ref(), |a, b| *a $op (*b as i32))),
-            (A::Int32(a), A::Int32(b)) => A::new_int32(binary_op(a.as_ref(), b.as_ref(), |a, b| a $op b)),
+            (A::Int16(a), A::Int32(b)) => A::new_int32(checked_binary_op(a.as_ref(), b.as_ref(), stringify!($name), |a, b| ((*a as i32)).$checked(*b))?),
+            (A::Int32(a), A::Int16(b)) => A::new_int32(checked_binary_op(a.as_ref(), b.as_ref(), stringify!($name), |a, b| (*a).$checked((*b as i32)))?),
+            (A::Int32(a), A::Int32(b)) => A::new_int32(checked_binary_op(a.as_ref(), b.as_ref(), stringify!($name), |a, b| (*a).$checked(*b))?),
 
-            (A::Int16(a), A::Int64(b)) => A::new_int64(binary_op(a.as_ref(), b.as_ref(), |a, b| (*a as i64) $op *b)),
-            (A::Int32(a), A::Int64(b)) => A::new_int64(binary_op(a.as_ref(), b.as_ref(), |a, b| (*a as i64) $op *b)),
-            (A::Int64(a), A::Int16(b)) => A::new_int64(binary_op(a.as_ref(), b.as_ref(), |a, b| *a $op (*b as i64))),
-            (A::Int64(a), A::Int32(b)) => A::new_int64(binary_op(a.as_ref(), b.as_ref(), |a, b| *a $op (*b as i64))),
-            (A::Int64(a), A::Int64(b)) => A::new_int64(binary_op(a.as_ref(), b.as_ref(), |a, b| a $op b)),
+            (A::Int16(a), A::Int64(b)) => A::new_int64(checked_binary_op(a.as_ref(), b.as_ref(), stringify!($name), |a, b| ((*a as i64)).$checked(*b))?),
+            (A::Int32(a), A::Int64(b)) => A::new_int64(checked_binary_op(a.as_ref(), b.as_ref(), stringify!($name), |a, b| ((*a as i64)).$checked(*b))?),
+            (A::Int64(a), A::Int16(b)) => A::new_int64(checked_binary_op(a.as_ref(), b.as_ref(), stringify!($name), |a, b| (*a).$checked((*b as i64)))?),
+            (A::Int64(a), A::Int32(b)) => A::new_int64(checked_binary_op(a.as_ref(), b.as_ref(), stringify!($name), |a, b| (*a).$checked((*b as i64)))?),
+            (A::Int64(a), A::Int64(b)) => A::new_int64(checked_binary_op(a.as_ref(), b.as_ref(), stringify!($name), |a, b| (*a).$checked(*b))?),
 
             (A::Int16(a), A::Float64(b)) => A::new_float64(binary_op(a.as_ref(), b.as_ref(), |a, b| F64::from(*a as f64) $op *b)),
             (A::Int32(a), A::Float64(b)) => A::new_float64(binary_op(a.as_ref(), b.as_ref(), |a, b| F64::from(*a as f64) $op *b)),
@@ -75,15 +79,15 @@ macro_rules! arith {
             (A::Float64(a), A::Int64(b)) => A::new_float64(binary_op(a.as_ref(), b.as_ref(), |a, b| *a $op F64::from(*b as f64))),
             (A::Float64(a), A::Float64(b)) => A::new_float64(binary_op(a.as_ref(), b.as_ref(), |a, b| *a $op *b)),
 
-            (A::Int16(a), A::Decimal(b)) => A::new_decimal(binary_op(a.as_ref(), b.as_ref(), |a, b| Decimal::from(*a) $op *b)),
-            (A::Int32(a), A::Decimal(b)) => A::new_decimal(binary_op(a.as_ref(), b.as_ref(), |a, b| Decimal::from(*a) $op *b)),
-            (A::Int64(a), A::Decimal(b)) => A::new_decimal(binary_op(a.as_ref(), b.as_ref(), |a, b| Decimal::from(*a) $op *b)),
-            (A::Float64(a), A::Decimal(b)) => A::new_decimal(binary_op(a.as_ref(), b.as_ref(), |a, b| Decimal::from_f64_retain(a.0).unwrap() $op *b)),
-            (A::Decimal(a), A::Int16(b)) => A::new_decimal(binary_op(a.as_ref(), b.as_ref(), |a, b| *a $op Decimal::from(*b))),
-            (A::Decimal(a), A::Int32(b)) => A::new_decimal(binary_op(a.as_ref(), b.as_ref(), |a, b| *a $op Decimal::from(*b))),
-            (A::Decimal(a), A::Int64(b)) => A::new_decimal(binary_op(a.as_ref(), b.as_ref(), |a, b| *a $op Decimal::from(*b))),
-            (A::Decimal(a), A::Float64(b)) => A::new_decimal(binary_op(a.as_ref(), b.as_ref(), |a, b| *a $op Decimal::from_f64_retain(b.0).unwrap())),
-            (A::Decimal(a), A::Decimal(b)) => A::new_decimal(binary_op(a.as_ref(), b.as_ref(), |a, b| a $op b)),
+            (A::Int16(a), A::Decimal(b)) => A::new_decimal(checked_binary_op(a.as_ref(), b.as_ref(), stringify!($name), |a, b| (Decimal::from(*a)).$checked(*b))?),
+            (A::Int32(a), A::Decimal(b)) => A::new_decimal(checked_binary_op(a.as_ref(), b.as_ref(), stringify!($name), |a, b| (Decimal::from(*a)).$checked(*b))?),
+            (A::Int64(a), A::Decimal(b)) => A::new_decimal(checked_binary_op(a.as_ref(), b.as_ref(), stringify!($name), |a, b| (Decimal::from(*a)).$checked(*b))?),
+            (A::Float64(a), A::Decimal(b)) => A::new_decimal(checked_binary_op(a.as_ref(), b.as_ref(), stringify!($name), |a, b| Decimal::from_f64_retain(a.0)?.$checked(*b))?),
+            (A::Decimal(a), A::Int16(b)) => A::new_decimal(checked_binary_op(a.as_ref(), b.as_ref(), stringify!($name), |a, b| (*a).$checked(Decimal::from(*b)))?),
+            (A::Decimal(a), A::Int32(b)) => A::new_decimal(checked_binary_op(a.as_ref(), b.as_ref(), stringify!($name), |a, b| (*a).$checked(Decimal::from(*b)))?),
+            (A::Decimal(a), A::Int64(b)) => A::new_decimal(checked_binary_op(a.as_ref(), b.as_ref(), stringify!($name), |a, b| (*a).$checked(Decimal::from(*b)))?),
+            (A::Decimal(a), A::Float64(b)) => A::new_decimal(checked_binary_op(a.as_ref(), b.as_ref(), stringify!($name), |a, b| (*a).$checked(Decimal::from_f64_retain(b.0)?))?),
+            (A::Decimal(a), A::Decimal(b)) => A::new_decimal(checked_binary_op(a.as_ref(), b.as_ref(), stringify!($name), |a, b| (*a).$checked(*b))?),
 
             (A::Date(a), A::Interval(b)) => A::new_date(binary_op(a.as_ref(), b.as_ref(), |a, b| *a $op *b)),
 
@@ -148,11 +152,11 @@ macro_rules! cmp {
 }
 
 impl ArrayImpl {
-    arith!(add, +);
-    arith!(sub, -);
-    arith!(mul, *);
-    arith!(unchecked_div, /);
-    arith!(unchecked_rem, %);
+    arith!(add, +, checked_add);
+    arith!(sub, -, checked_sub);
+    arith!(mul, *, checked_mul);
+    arith!(unchecked_div, /, checked_div);
+    arith!(unchecked_rem, %, checked_rem);
     cmp!(eq, ==);
     cmp!(ne, !=);
     cmp!(gt,  >);
@@ -837,6 +841,34 @@ where
     let it = a.raw_iter().zip(b.raw_iter()).map(|(a, b)| f(a, b));
     let valid = a.get_valid_bitmap().and(b.get_valid_bitmap());
     O::from_data(it, valid)
+}
+
+/// Applies a checked operation to the slots that are valid in both inputs. The raw data under a
+/// NULL slot is arbitrary and must not be fed to the operation: it may overflow.
+fn checked_binary_op<A, B, O, F>(
+    a: &A,
+    b: &B,
+    name: &'static str,
+    f: F,
+) -> std::result::Result<O, ConvertError>
+where
+    A: ArrayValidExt,
+    B: ArrayValidExt,
+    O: ArrayFromDataExt,
+    <O::Item as ToOwned>::Owned: Default,
+    F: Fn(&A::Item, &B::Item) -> Option<<O::Item as ToOwned>::Owned>,
+{
+    assert_eq!(a.len(), b.len());
+    let valid = a.get_valid_bitmap().clone().and(b.get_valid_bitmap());
+    let mut data = Vec::with_capacity(a.len());
+    for ((a, b), valid) in a.raw_iter().zip(b.raw_iter()).zip(valid.iter()) {
+        data.push(if *valid {
+            f(a, b).ok_or(ConvertError::OutOfRange(name))?
+        } else {
+            Default::default()
+        });
+    }
+    Ok(O::from_data(data.into_iter(), valid))
 }
 
 fn unary_op<A, O, F, V>(a: &A, f: F) -> O
